@@ -171,7 +171,7 @@ class Claims:
     def witness(self, ctx):
         """Vacuity guard: this path's full condition must be satisfiable."""
         r, m = ctx.reachable()
-        if r == 'sat':
+        if r in ('sat', 'sat-without-definitions'):
             self.part.witnesses += 1
         return r, m
 
